@@ -20,10 +20,22 @@
      check     l.241-245                    `entry(key)`, READ `strong_count()`, remove if 0
 
    Everything else in the iteration is local to the listener task.  The op `RListener` performs
-   the next of these actions (the program counter `pc` says which); `RClose cid`, `RArrive k` and
-   `REndListener` may occur between any two of them.  `RClose` is also accepted for a channel that
-   `poll_next` has created but not returned yet (which no thread can do): a superset of the real
-   interleavings, so what is proved for all op lists holds for the real ones.
+   the next of these actions (the program counter `pc` says which).  Dropping a TrackedChannel is
+   two steps of another thread: `RRelease cid` releases its `Arc<Tracker>` (the strong count drops;
+   if it was the last holder the tracker now OWES a notification: ghost field `owed`), and later
+   `RNotify k` is `Tracker::drop` sending the key on `dropped_keys`.  The listener may run between
+   the two (count 0 visible, notification not yet queued) and owed notifications of different
+   threads may arrive in any order.  `RClose cid` is the special case release + immediate
+   notification.  `RRelease`/`RNotify`/`RClose`, `RArrive k` and `REndListener` may occur between
+   any two actions of the listener.  A release is also accepted for a channel that `poll_next` has
+   created but not returned yet (which no thread can do): a superset of the real interleavings, so
+   what is proved for all op lists holds for the real ones.
+
+   ASSUMED: the reads of `strong_count()` are sequentially consistent (each read returns the count
+   of the state it runs in).  `Weak::strong_count` is a relaxed load; since other threads only
+   ever decrement the count and the listener's own increments are visible to itself, a stale read
+   can only return a HIGHER value than the current one: a conservative shed, never an admission
+   over the limit.  `upgrade()` is a CAS loop and is exact.
 
    Two observation lists per op:
      decision view   a shed is observed at the action that READ the count, a yield at the action
@@ -50,68 +62,93 @@ Inductive rpc :=
 | PcClosed (l : rlres)              (* poll_listener returned l; poll_closed_channels not yet called *)
 | PcCheck (l : rlres) (k : key).    (* notification k received; its entry not yet examined *)
 
-Record rst := { rb : st; pc : rpc }.
+Record rst := { rb : st; pc : rpc; owed : list key }.   (* owed: ghost, keys whose Tracker::drop has not sent yet *)
 
 Definition with_notifs (b : st) (v : list key) : st :=
   {| arrivals := arrivals b; ended := ended b; kc := kc b; chans := chans b; notifs := v;
      next_tid := next_tid b; next_cid := next_cid b; lim := lim b |}.
 
 (* action `listen` *)
-Definition listen (b : st) : rst * list obs :=
+Definition listen (b : st) (w : list key) : rst * list obs :=
   match arrivals b with
-  | [] => ({| rb := b; pc := PcClosed (if ended b then REndL else RPend) |}, [])
+  | [] => ({| rb := b; pc := PcClosed (if ended b then REndL else RPend); owed := w |}, [])
   | k :: _ =>
     let b1 := pop_arrival b in
     match lookup k (kc b1) with
     | None =>
-      ({| rb := accept b1 k (next_tid b1) true; pc := PcClosed (RYield (next_cid b1) k) |},
+      ({| rb := accept b1 k (next_tid b1) true; pc := PcClosed (RYield (next_cid b1) k); owed := w |},
        [OYield (next_cid b1) k])
     | Some t =>
       let c := strong t (chans b1) in                      (* the READ *)
-      if lim b1 <=? c then ({| rb := b1; pc := PcClosed (RShed k) |}, [OShed k])
-      else ({| rb := b1; pc := PcUpgrade k t |}, [])
+      if lim b1 <=? c then ({| rb := b1; pc := PcClosed (RShed k); owed := w |}, [OShed k])
+      else ({| rb := b1; pc := PcUpgrade k t; owed := w |}, [])
     end
   end.
 
 (* action `upgrade` *)
-Definition upgrade (b : st) (k : key) (t : nat) : rst * list obs :=
+Definition upgrade (b : st) (w : list key) (k : key) (t : nat) : rst * list obs :=
   let b' := if Nat.eqb (strong t (chans b)) 0 then accept b k (next_tid b) true   (* upgrade() = None *)
             else accept b k t false in
-  ({| rb := b'; pc := PcClosed (RYield (next_cid b) k) |}, [OYield (next_cid b) k]).
+  ({| rb := b'; pc := PcClosed (RYield (next_cid b) k); owed := w |}, [OYield (next_cid b) k]).
 
 (* the end of an iteration: (decision view, report view) *)
-Definition finish (b : st) (l : rlres) (c : bool) : rst * (list obs * list obs) :=
+Definition finish (b : st) (w : list key) (l : rlres) (c : bool) : rst * (list obs * list obs) :=
   match l with
-  | RYield cid k => ({| rb := b; pc := PcIdle |}, ([], [OYield cid k]))
-  | RShed k => ({| rb := b; pc := PcLoop |}, ([], [OShed k]))
-  | RPend => if c then ({| rb := b; pc := PcLoop |}, ([], []))
-             else ({| rb := b; pc := PcIdle |}, ([OPending], [OPending]))
-  | REndL => if c then ({| rb := b; pc := PcLoop |}, ([], []))
-             else ({| rb := b; pc := PcIdle |}, ([OEnd], [OEnd]))
+  | RYield cid k => ({| rb := b; pc := PcIdle; owed := w |}, ([], [OYield cid k]))
+  | RShed k => ({| rb := b; pc := PcLoop; owed := w |}, ([], [OShed k]))
+  | RPend => if c then ({| rb := b; pc := PcLoop; owed := w |}, ([], []))
+             else ({| rb := b; pc := PcIdle; owed := w |}, ([OPending], [OPending]))
+  | REndL => if c then ({| rb := b; pc := PcLoop; owed := w |}, ([], []))
+             else ({| rb := b; pc := PcIdle; owed := w |}, ([OEnd], [OEnd]))
   end.
 
 (* the next atomic action of the listener task *)
 Definition lstep (s : rst) : rst * (list obs * list obs) :=
+  let w := owed s in
   match pc s with
-  | PcIdle | PcLoop => let '(s', o) := listen (rb s) in (s', (o, []))
-  | PcUpgrade k t => let '(s', o) := upgrade (rb s) k t in (s', (o, []))
+  | PcIdle | PcLoop => let '(s', o) := listen (rb s) w in (s', (o, []))
+  | PcUpgrade k t => let '(s', o) := upgrade (rb s) w k t in (s', (o, []))
   | PcClosed l =>
     match notifs (rb s) with
-    | [] => finish (rb s) l false                                              (* Poll::Pending *)
-    | k :: r => ({| rb := with_notifs (rb s) r; pc := PcCheck l k |}, ([], []))  (* action `receive` *)
+    | [] => finish (rb s) w l false                                              (* Poll::Pending *)
+    | k :: r => ({| rb := with_notifs (rb s) r; pc := PcCheck l k; owed := w |}, ([], []))  (* action `receive` *)
     end
   | PcCheck l k =>
     (* action `check`: exactly PerKey.poll_closed (repaired) on the notification just received *)
-    finish (snd (poll_closed true (with_notifs (rb s) (k :: notifs (rb s))))) l true
+    finish (snd (poll_closed true (with_notifs (rb s) (k :: notifs (rb s))))) w l true
   end.
 
-Inductive rop := RArrive (k : key) | RClose (cid : nat) | RListener | REndListener.
+(* another thread releases the Arc<Tracker> of channel cid: PerKey.close without the notification;
+   the key it would have queued (if this was the last holder) is owed instead *)
+Definition release (b : st) (cid : nat) : st * list key :=
+  (with_notifs (close b cid) (notifs b), skipn (length (notifs b)) (notifs (close b cid))).
+
+Fixpoint remove_one (k : key) (l : list key) : list key :=
+  match l with
+  | [] => []
+  | x :: r => if Nat.eqb k x then r else x :: remove_one k r
+  end.
+
+Inductive rop :=
+| RArrive (k : key)
+| RRelease (cid : nat)          (* the strong count drops *)
+| RNotify (k : key)             (* an owed Tracker::drop sends its key *)
+| RClose (cid : nat)            (* release + immediate notification *)
+| RListener | REndListener.
 
 Definition rstep (s : rst) (o : rop) : rst * (list obs * list obs) :=
   match o with
-  | RArrive k => ({| rb := fst (step true (rb s) (Arrive k)); pc := pc s |}, ([], []))
-  | RClose cid => ({| rb := close (rb s) cid; pc := pc s |}, ([], []))
-  | REndListener => ({| rb := fst (step true (rb s) EndListener); pc := pc s |}, ([], []))
+  | RArrive k => ({| rb := fst (step true (rb s) (Arrive k)); pc := pc s; owed := owed s |}, ([], []))
+  | RRelease cid =>
+    let '(b, ks) := release (rb s) cid in
+    ({| rb := b; pc := pc s; owed := owed s ++ ks |}, ([], []))
+  | RNotify k =>
+    if existsb (Nat.eqb k) (owed s)
+    then ({| rb := with_notifs (rb s) (notifs (rb s) ++ [k]); pc := pc s; owed := remove_one k (owed s) |},
+          ([], []))
+    else (s, ([], []))
+  | RClose cid => ({| rb := close (rb s) cid; pc := pc s; owed := owed s |}, ([], []))
+  | REndListener => ({| rb := fst (step true (rb s) EndListener); pc := pc s; owed := owed s |}, ([], []))
   | RListener => lstep s
   end.
 
@@ -122,14 +159,16 @@ Fixpoint rrun_from (s : rst) (ops : list rop) : list (list obs * list obs) * rst
               let '(ls, s2) := rrun_from s1 r in (l :: ls, s2)
   end.
 
-Definition rinit (n : nat) : rst := {| rb := init n; pc := PcIdle |}.
+Definition rinit (n : nat) : rst := {| rb := init n; pc := PcIdle; owed := [] |}.
 Definition rrun (n : nat) (ops : list rop) := rrun_from (rinit n) ops.
 
 Definition decision_view (tr : list (list obs * list obs)) : list (list obs) := map fst tr.
 Definition report_view (tr : list (list obs * list obs)) : list (list obs) := map snd tr.
 
-(* what the C13 monitor (PerKey.mon) sees of the ops: only the closes matter to it *)
+(* what the C13 monitor (PerKey.mon) sees of the ops: only the end of a channel matters to it, and
+   a channel is over when its Arc is released (the notification is not an event of the channel) *)
 Definition to_op (o : rop) : op :=
   match o with
-  | RArrive k => Arrive k | RClose cid => Close cid | RListener => Poll | REndListener => EndListener
+  | RArrive k => Arrive k | RRelease cid => Close cid | RClose cid => Close cid
+  | RNotify _ => Poll | RListener => Poll | REndListener => EndListener
   end.
